@@ -116,13 +116,13 @@ def main():
         wt = f"/tmp/sd3_{prop}"
         diff, demo = f"{wt}/change_{n}.diff", f"{wt}/demo_{n}.py"
         out = f"{V}/seeded/{prop}-{name}"
-        if not (os.path.exists(diff) and os.path.exists(demo)):
-            if not os.path.exists(f"{out}/patch.diff"):
-                print(prop, n, "files missing")
+        if os.path.exists(diff) and os.path.exists(demo):
+            os.makedirs(out, exist_ok=True)
+            shutil.copy(diff, f"{out}/patch.diff")
+            shutil.copy(demo, f"{out}/demo.py")
+        elif not os.path.exists(f"{out}/patch.diff"):
+            print(prop, n, "files missing")
             continue
-        os.makedirs(out, exist_ok=True)
-        shutil.copy(diff, f"{out}/patch.diff")
-        shutil.copy(demo, f"{out}/demo.py")
         tmp = tempfile.mkdtemp(prefix="sd3c_", dir="/tmp")
         try:
             shutil.copytree("/repo/src", f"{tmp}/src")
